@@ -32,7 +32,7 @@ DBs(s) ==
   \cup {[b EXCEPT ![i].t = NT("ascii")] : i \in {j \in 1..k : b[j].t.n = "text"}}
   \cup {[b EXCEPT ![i] = X] : i \in 1..k}
   \cup (IF Six /\ s \in {"Plain", "Ordered"} THEN Perm(b \o <<X, Y>>) ELSE {})
-Modes(s) == IF s \in {"Flat", "Flat2"} THEN {"row"} ELSE IF s \in {"OrderedAM", "NameAM"} THEN {"udt"} ELSE {"udt", "row"}
+Modes(s) == IF s \in {"Flat", "Flat2"} THEN {"row"} ELSE IF s \in {"OrderedAM", "NameAM", "OrderedAMDN"} THEN {"udt"} ELSE {"udt", "row"}
 VARIABLE c
 Init ==
   \/ \E s \in Structs : \E m \in Modes(s) : \E db \in DBs(s) : c = [s |-> s, mode |-> m, db |-> db, vs |-> 1, mask |-> {}, wlen |-> Len(db)]
@@ -40,6 +40,9 @@ Init ==
        \E mask \in SUBSET (1..Len(db)) : c = [s |-> s, mode |-> m, db |-> db, vs |-> vs, mask |-> mask, wlen |-> Len(db)]
   \/ \E s \in Structs \ {"Flat", "Flat2"} : \E db \in {Base(s), Ins(Base(s), 2, X)} : \E mask \in {{}, {1}} : \E wl \in 0..(Len(db) - 1) :
        c = [s |-> s, mode |-> "udt", db |-> db, vs |-> 1, mask |-> mask, wlen |-> wl]
+  \* structs with fields that may be missing: every sub-layout (fields left out at every position) x every null pattern
+  \/ \E s \in {"OrderedAM", "NameAM", "AllowMissing", "OrderedAMDN", "DefaultNull", "Opt"} : \E M \in SUBSET (1..Len(Base(s))) : \E mask \in SUBSET (1..Cardinality(M)) :
+       c = [s |-> s, mode |-> "udt", db |-> Pick(Base(s), M, 1), vs |-> 1, mask |-> mask, wlen |-> Cardinality(M)]
 Next == UNCHANGED c
 Spec == Init /\ [][Next]_c
 WV == [i \in 1..c.wlen |-> IF i \in c.mask THEN [k |-> "null"] ELSE ValT(NameNum(c.db[i].n), c.db[i].t.n, c.vs)]
